@@ -60,6 +60,10 @@ class RebuildProp(Prop):
                  "what": "5 files, sizes 0..4"},
                 {"module": "FindMatches.tla", "cfg": "MC_FindMatches_3files.cfg", "tier": "thorough", "timeout": 3000,
                  "what": "3 files, sizes 0..3, up to 2 candidates each of 5 classes: 1.4 M scenarios"},
+                {"module": "MapPieces.tla", "cfg": "MC_MapPieces_live.cfg",
+                 "what": "liveness: _map_pieces terminates for every size vector"},
+                {"module": "FindMatches.tla", "cfg": "MC_FindMatches_live.cfg",
+                 "what": "liveness: the candidate search terminates for every scenario"},
                 {"module": "MapPieces.tla", "cfg": "MC_MapPieces_code.cfg", "expect": "fail",
                  "what": "_map_pieces at the pinned commit: file ending exactly on a piece boundary is used again"},
                 {"module": "FindMatches.tla", "cfg": "MC_FindMatches.cfg",
